@@ -201,7 +201,7 @@ def replay(ctx, kind, cases):
 
 def run(ctx):
   q = ctx.quick
-  rc = ctx.tlc('Collectives', 'Collectives.cfg', workers=1)
+  rc = ctx.tlc('Collectives', 'Collectives.cfg' if q else 'Collectives_thorough.cfg', workers=1)
   ctx.require_actions(rc, ['AGStart', 'AGRound', 'RSStart', 'RSRound', 'RSFinal', 'PSAll'])
   rm = ctx.tlc('Meshes', 'Meshes.cfg')
   pairs = {c['n']: c['pairs'] for c in rc.cases if c['alg'] == 'allgather'}
@@ -240,7 +240,7 @@ def run(ctx):
   ctx.sample({k: chosen[0][k] for k in ('mesh', 'M', 'K', 'modal', 'nodal', 'zpad')})
   ctx.assumptions += ['virtual CPU devices only; XLA SPMD partitioner trusted; no multi-host communication',
                       'float64, tolerance 1e-11 of range for whole operations; integer data exact for sharded_einsum']
-  return ctx.finish(rule='Collectives: n in {1,2,4,6,8,10,12,16} x {all-gather, reduce-scatter, prefix sum} exhaustively in TLC; '
+  return ctx.finish(rule='Collectives: n in {1,2,4,6,8,10,12,16} (thorough: up to 64) x {all-gather, reduce-scatter, prefix sum} exhaustively in TLC; '
                          'replay: sharded_einsum for n in {2,4,6,8} x axis x 5 patterns x 3 strategies x 2 argument orders, '
                          'tag decoding against the spec; every mesh (z,x,y) on <= 8 devices from Meshes.tla (quick: 8 of 27)',
                     exhaustive=not q)
